@@ -111,3 +111,61 @@ func init() {
 	})
 	regImpl("imp.grid", func(a []string) string { return runGrid(a[0], decGrid(a[1])) })
 }
+
+// ---------------------------------------------------------------------------
+// corr.importer.csvText: file TEXT → rows. Generated CSV texts — assembled from tokens so that every state of the
+// reader is met: bare and quoted fields, doubled quotes, quotes in the wrong place, text after a closing quote,
+// unterminated quoted fields, CR / LF / CR LF in every position, empty lines anywhere — are read by the real
+// importer and by Model.CSV.readRows (result or error).
+// ---------------------------------------------------------------------------
+
+var csvTokens = []string{"a", "b c", " ", "x", "1.5", "é", ",", ",", ",", "\n", "\n", "\r\n", "\r", "\"", "\"", "\"\"", "\"a\"", "\"a,b\"", "\"l1\nl2\"",
+	"\"l1\r\nl2\"", "\"say \"\"hi\"\"\"", "\"\"", "\t", "#", "\n\n", ",,", "\"x\"y", "a\"b", "\"unterminated", "\r\r\n"}
+
+func runCSVText(text string) string {
+	w := newWorkspace()
+	defer w.cleanup()
+	path := filepath.Join(w.In, "Grid#Sheet.csv")
+	if err := os.WriteFile(path, []byte(text), 0o644); err != nil {
+		panic(err)
+	}
+	imp, err := tableau.NewImporter(path)
+	if err != nil {
+		return "err"
+	}
+	sh := imp.GetSheet("Sheet")
+	if sh == nil || sh.Table == nil {
+		return "nosheet"
+	}
+	return "rows " + encGrid(sh.Table.Rows)
+}
+
+func init() {
+	regStream("corr.importer.csvText", func(r *rand.Rand, n int, emit func(string, ...string)) {
+		for i := 0; i < n; i++ {
+			var sb strings.Builder
+			if i%3 == 0 {
+				// a well-formed file in one of the writer styles, line ends varied
+				nr := 1 + r.Intn(5)
+				rows := make([][]string, nr)
+				for k := range rows {
+					for c, nc := 0, 1+r.Intn(4); c < nc; c++ {
+						rows[k] = append(rows[k], gridCells[r.Intn(len(gridCells))])
+					}
+				}
+				sb.WriteString(gridText([]string{"csv-go", "csv-min", "csv-crlf", "csv-all"}[r.Intn(4)], rows))
+				if r.Intn(3) == 0 { // the last line without its line end
+					s := strings.TrimRight(sb.String(), "\r\n")
+					sb.Reset()
+					sb.WriteString(s)
+				}
+			} else {
+				for k, nt := 0, 1+r.Intn(10); k < nt; k++ {
+					sb.WriteString(csvTokens[r.Intn(len(csvTokens))])
+				}
+			}
+			emit("imp.csvtext", encStr(sb.String()))
+		}
+	})
+	regImpl("imp.csvtext", func(a []string) string { return runCSVText(mustStr(a[0])) })
+}
